@@ -26,28 +26,28 @@ CLAIMS = {
         ref="3 C02",
     ),
     "C03": dict(
-        technique="static analysis: guard-dominance and must-pass-through queries on the CFG of every simplex insertion/removal site; R-SHARE",
-        text="Decides that every insertion of a simplex is dominated by the duplicate, emptiness and existing-ID guards, is followed on every path by scheduling of all its faces through guarded face insertion, is bounded by max_order (which is compared with None, never tested for truthiness: 0 is a limit), stores frozensets, and that removal removes all strict supersets first. Value-level facts about which faces exist are not decided. No container object is stored under two keys (R-SHARE).",
+        technique="static analysis: guard-dominance and must-pass-through queries on the CFG of every simplex insertion/removal site; R-SHARE; length-filter requirement on uncapped face producers",
+        text="Decides that every insertion of a simplex is dominated by the duplicate, emptiness and existing-ID guards, is followed on every path by scheduling of all its faces through guarded face insertion, is bounded by max_order (which is compared with None, never tested for truthiness: 0 is a limit), stores frozensets, and that removal removes all strict supersets first. Value-level facts about which faces exist are not decided. No container object is stored under two keys (R-SHARE). Faces that replace a too-large simplex come from a producer capped by max_order (powerset max_size, combinations r, or _subfaces filtered by length).",
         ref="3 C03",
     ),
     "C04": dict(
-        technique="static analysis: provenance of every inserted edge key (automatic vs caller-supplied) and must-pass-through of the counter update on the CFG",
-        text="Decides the counter invariant: every caller-keyed insertion into the edge table is dominated by an existing-ID guard that leaves the network unchanged, and is followed on every path, per key and not under a truthiness guard, by update_uid_counter; the counter is assigned only by its owners; copy/pickle carry it; update_uid_counter keeps max(old, id+1).",
+        technique="static analysis: provenance of every inserted edge key (automatic vs caller-supplied) and must-pass-through of the counter update on the CFG; no automatic ID drawn between a caller-keyed insertion and its counter update",
+        text="Decides the counter invariant: every caller-keyed insertion into the edge table is dominated by an existing-ID guard that leaves the network unchanged, and is followed on every path, per key and not under a truthiness guard, by update_uid_counter; the counter is assigned only by its owners; copy/pickle carry it; update_uid_counter keeps max(old, id+1). Between a caller-keyed insertion and its counter update no automatic ID is drawn (directly or through a method whose effect summary draws one).",
         ref="3 C04",
     ),
     "C05": dict(
-        technique="static analysis: raise-site classification, validate-before-write ordering at every explicit rejection, effect footprint of swap/shuffle/clear, dead-parameter liveness analysis, IDDict override table vs dict-method call sites; CFG order and guard table of the cleanup steps",
-        text="Narrow: decides (a) that edits rejected for a missing/invalid ID raise the library's own error type at every explicit raise and every caller-keyed plain-container access, (b) that double_edge_swap and random_edge_shuffle insert/delete no key and touch no attribute or counter, (c) that aliases and thin wrappers forward every parameter, (d) that every explicit rejection (raise statement) in a mutator is reached before any table write of the rejected item, (e) that direction 'in'/'out' edits the tail/head side, clear()/clear_edges() have exactly their documented table footprint, update() forwards what it is given, the 'first' options of merge_duplicate_edges pick the smallest ID, no keyed dict method that IDDict does not override is used on a table without a guard, and every parameter of every method can influence what it does (dead-parameter analysis). Equality with a reference model after edit sequences is NOT decided. The step order and flag guards of cleanup (rules Q-ORDER / Q-FLAG / Q-COPY of C19) are checked as part of the documented effect of that edit.",
+        technique="static analysis: raise-site classification, validate-before-write ordering at every explicit rejection, effect footprint of swap/shuffle/clear, dead-parameter liveness analysis, IDDict override table vs dict-method call sites; CFG order and guard table of the cleanup steps; handler placement of skipped lookups (E-SKIP), optional-ID truthiness lint (E-IDKEEP)",
+        text="Narrow: decides (a) that edits rejected for a missing/invalid ID raise the library's own error type at every explicit raise and every caller-keyed plain-container access, (b) that double_edge_swap and random_edge_shuffle insert/delete no key and touch no attribute or counter, (c) that aliases and thin wrappers forward every parameter, (d) that every explicit rejection (raise statement) in a mutator is reached before any table write of the rejected item, (e) that direction 'in'/'out' edits the tail/head side, clear()/clear_edges() have exactly their documented table footprint, update() forwards what it is given, the 'first' options of merge_duplicate_edges pick the smallest ID, no keyed dict method that IDDict does not override is used on a table without a guard, and every parameter of every method can influence what it does (dead-parameter analysis). Equality with a reference model after edit sequences is NOT decided. The step order and flag guards of cleanup (rules Q-ORDER / Q-FLAG / Q-COPY of C19) are checked as part of the documented effect of that edit. A handler that skips an unknown ID sits inside the bulk loop, not around it (E-SKIP); optional ID parameters are tested against None, never for truthiness (E-IDKEEP).",
         ref="3 C05",
     ),
     "C06": dict(
-        technique="static analysis: alias analysis of view bindings, who-may-rebind the tables, no-memoisation lint, order-provenance tags, filter mode/operator table extraction, dead-parameter liveness analysis, side-literal table for directed statistics, zero-count pattern lints with embedded positive examples; who-may-bind check of a view's ID list",
-        text="Decides the mechanisms that make views and statistics live and ordered: views alias the live tables, tables are never rebound outside __init__/__setstate__, nothing is memoised, every ordered output follows the view, filter modes map to their comparison operators, view methods forward every parameter, from_view binds all table references, directed totals are sizes of unions (never sums of the two sides), one-sided directed statistics read their own side, stored attribute values are never replaced by a default through truthiness, and every parameter of every view method / stat function is live. Numerical definitions of statistics are not decided. Only IDView.__init__ and from_view bind a view's ID list, and no view is constructed with an explicit ID list elsewhere (V-IDS), so every derived view is validated and in network order.",
+        technique="static analysis: alias analysis of view bindings, who-may-rebind the tables, no-memoisation lint, order-provenance tags, filter mode/operator table extraction, dead-parameter liveness analysis, side-literal table for directed statistics, zero-count pattern lints with embedded positive examples; who-may-bind check of a view's ID list; full-table domain of neighbour-set selections",
+        text="Decides the mechanisms that make views and statistics live and ordered: views alias the live tables, tables are never rebound outside __init__/__setstate__, nothing is memoised, every ordered output follows the view, filter modes map to their comparison operators, view methods forward every parameter, from_view binds all table references, directed totals are sizes of unions (never sums of the two sides), one-sided directed statistics read their own side, stored attribute values are never replaced by a default through truthiness, and every parameter of every view method / stat function is live. Numerical definitions of statistics are not decided. Only IDView.__init__ and from_view bind a view's ID list, and no view is constructed with an explicit ID list elsewhere (V-IDS), so every derived view is validated and in network order. lookup / duplicates examine every ID of the table (V-DOMAIN).",
         ref="3 C06",
     ),
     "C07": dict(
-        technique="static analysis: escape/alias analysis with copy barriers at every network-to-network transfer, pickle state-table agreement; per-site counter rules of all classes and package-wide who-may-write check as premises",
-        text="Decides independence and completeness of transferred state for copy(), pickle and the network-to-network constructor branches: every flow from the source network into the new one passes a copy barrier (deep for attributes in copy(); member tables filled directly must be fresh down to the member sets), getstate/setstate/__init__ agree on the attribute set, the counter is copied. Equality of copied values is not decided. The bulk adders the constructors rebuild through pass the counter beyond every transferred ID (U-GUARD / U-BUMP at every insertion site of the three classes) and nothing outside the classes fills a network's tables (R-ENC).",
+        technique="static analysis: escape/alias analysis with copy barriers at every network-to-network transfer, pickle state-table agreement; per-site counter rules of all classes and package-wide who-may-write check as premises; copy() delegating to the constructor checked through the converter branch",
+        text="Decides independence and completeness of transferred state for copy(), pickle and the network-to-network constructor branches: every flow from the source network into the new one passes a copy barrier (deep for attributes in copy(); member tables filled directly must be fresh down to the member sets), getstate/setstate/__init__ agree on the attribute set, the counter is copied. Equality of copied values is not decided. The bulk adders the constructors rebuild through pass the counter beyond every transferred ID (U-GUARD / U-BUMP at every insertion site of the three classes) and nothing outside the classes fills a network's tables (R-ENC). A copy() that delegates to the constructor is checked through the converter's network branch with copy()'s deep-copy obligation.",
         ref="3 C07",
     ),
     "C08": dict(
@@ -61,8 +61,8 @@ CLAIMS = {
         ref="3 C09",
     ),
     "C10": dict(
-        technique="static analysis: writer/reader key-table extraction and comparison, sibling-branch footprint cross-check, role-by-test and arc-orientation rules, forward taint from NumPy arrays to ID sinks, provenance resolution of IDs through helpers, dead-parameter liveness analysis, key-domain analysis of regrouping maps; writer/reader arc-orientation agreement by enumeration and guard, through inlined statement helpers",
-        text="Narrow: decides that the dict-format writers and readers agree on keys and enumerations (incl. direction literals), that all class-to-class converter branches transfer nodes, edges and network attributes, that bipartite endpoints are classified by a test, not by position, and that the direction of every membership read from a DiGraph is taken from the orientation of the arc being enumerated (the writer uses the opposite convention consistently), that no label reaches a network-building call or a returned table after a detour through a NumPy array built from the labels, that every parameter of every converter can influence its result (dead-parameter analysis), and that sibling maps filled under different conditions are read over the union of their keys (T-DOM). Round-trip equality of values is NOT decided. On the writer side of the bipartite graph, arcs written while enumerating tail|head must be decided by a positive test against the matching side (a node in both tail and head keeps both arcs).",
+        technique="static analysis: writer/reader key-table extraction and comparison, sibling-branch footprint cross-check, role-by-test and arc-orientation rules, forward taint from NumPy arrays to ID sinks, provenance resolution of IDs through helpers, dead-parameter liveness analysis, key-domain analysis of regrouping maps; writer/reader arc-orientation agreement by enumeration and guard, through inlined statement helpers; must-pass check that record attributes reach the network; optional-ID truthiness lint on the builders",
+        text="Narrow: decides that the dict-format writers and readers agree on keys and enumerations (incl. direction literals), that all class-to-class converter branches transfer nodes, edges and network attributes, that bipartite endpoints are classified by a test, not by position, and that the direction of every membership read from a DiGraph is taken from the orientation of the arc being enumerated (the writer uses the opposite convention consistently), that no label reaches a network-building call or a returned table after a detour through a NumPy array built from the labels, that every parameter of every converter can influence its result (dead-parameter analysis), and that sibling maps filled under different conditions are read over the union of their keys (T-DOM). Round-trip equality of values is NOT decided. On the writer side of the bipartite graph, arcs written while enumerating tail|head must be decided by a positive test against the matching side (a node in both tail and head keeps both arcs). In from_hif_dict the attributes of every node / edge record reach the network on every path of the record loop; the builders keep falsy labels (T-IDKEEP).",
         ref="3 C10",
     ),
     "C11": dict(
@@ -71,18 +71,18 @@ CLAIMS = {
         ref="3 C11",
     ),
     "C12": dict(
-        technique="static analysis: ID/position kind inference on matrix builders, index-map provenance (view-order placement), definite assignment in degenerate branches, sparse/dense sibling dtype agreement, filtering-history signatures of zipped sequences, dead-parameter liveness analysis; CFG dominance of the threshold comparison over any collapse of the counts",
-        text="Narrow: decides that rows/columns are addressed through index maps (never labels), that returned maps derive from the map that placed the entries and that this map numbers a view in view order, that degenerate-shape branches assign their result on every path, that the sparse and dense constructions of one builder use the same element type, that stored weights are never replaced by a default through truthiness, that sequences consumed pairwise were filtered identically, that the adjacency tensor is populated idempotently (repeated edges do not add up), and that every parameter of every builder is live. Numerical equality with textbook definitions is NOT decided. In builders with a threshold s the counts are compared with s before they are collapsed to 0/1 on every path (M-THRESH).",
+        technique="static analysis: ID/position kind inference on matrix builders, index-map provenance (view-order placement), definite assignment in degenerate branches, sparse/dense sibling dtype agreement, filtering-history signatures of zipped sequences, dead-parameter liveness analysis; CFG dominance of the threshold comparison over any collapse of the counts; lint for buffered index-array updates",
+        text="Narrow: decides that rows/columns are addressed through index maps (never labels), that returned maps derive from the map that placed the entries and that this map numbers a view in view order, that degenerate-shape branches assign their result on every path, that the sparse and dense constructions of one builder use the same element type, that stored weights are never replaced by a default through truthiness, that sequences consumed pairwise were filtered identically, that the adjacency tensor is populated idempotently (repeated edges do not add up), and that every parameter of every builder is live. Numerical equality with textbook definitions is NOT decided. In builders with a threshold s the counts are compared with s before they are collapsed to 0/1 on every path (M-THRESH). Matrices are never filled by in-place updates through index arrays where repeated indices must add up (M-FANCY).",
         ref="3 C12",
     ),
     "C13": dict(
-        technique="static analysis: abstract interpretation of the boundary sign exponent in the parity domain, face-loop shape checks, per-path symbolic evaluation of the Hodge composition",
-        text="Narrow: decides that the sign exponent stored by boundary_matrix has the textbook parity (up to an order-only sign), that the reference orientation is fixed before faces are enumerated, that every face of the combinations enumeration is stored and looked up by member set and addressed by its simplex ID (kind inference), that _subfaces enumerates the simplex in the order it is given, and that hodge_laplacian, evaluated symbolically on every path to a return, is B_k^T B_k + B_{k+1} B_{k+1}^T of boundary matrices built with the same orientations (the upper term absent only where there are no (k+1)-simplices; a literal-shaped matrix returned only where there are no nodes). The identity on concrete complexes is NOT decided.",
+        technique="static analysis: abstract interpretation of the boundary sign exponent in the parity domain, face-loop shape checks, per-path symbolic evaluation of the Hodge composition; who-may-rebind check of the orientation map",
+        text="Narrow: decides that the sign exponent stored by boundary_matrix has the textbook parity (up to an order-only sign), that the reference orientation is fixed before faces are enumerated, that every face of the combinations enumeration is stored and looked up by member set and addressed by its simplex ID (kind inference), that _subfaces enumerates the simplex in the order it is given, and that hodge_laplacian, evaluated symbolically on every path to a return, is B_k^T B_k + B_{k+1} B_{k+1}^T of boundary matrices built with the same orientations (the upper term absent only where there are no (k+1)-simplices; a literal-shaped matrix returned only where there are no nodes). The identity on concrete complexes is NOT decided. The orientation map is the caller's or the default over the edge view and is never rebuilt, merged or updated per call (B-ORIENT).",
         ref="3 C13",
     ),
     "C16": dict(
-        technique="static analysis: member-shape kind rule at every edge-adding call in generators, must-reach add_nodes_from, skip-loop bound agreement, mixed-radix decoder extraction, alignment of pairwise-consumed sequences, taint from with-repetition enumerations to edge-adding calls, dead-parameter liveness analysis",
-        text="Narrow: decides that every generator hands add_edge/add_edges_from iterables of node IDs (never nested lists), adds the requested node set on every path, that skip-sampling loop bounds agree with their decoder's domain, that p in {0,1} branches are present or handled, that sequences consumed pairwise (orders and probabilities) are never reordered one without the other, that candidates enumerated with repetition (Cartesian products of node groups, product index decoders) reach an edge-adding call only under a test on their number of distinct nodes, and that every parameter of every generator is live. Edge counts and distributions are NOT decided.",
+        technique="static analysis: member-shape kind rule at every edge-adding call in generators, must-reach add_nodes_from, skip-loop bound agreement, mixed-radix decoder extraction, alignment of pairwise-consumed sequences, taint from with-repetition enumerations to edge-adding calls, dead-parameter liveness analysis; unfiltered node collection handed to add_nodes_from",
+        text="Narrow: decides that every generator hands add_edge/add_edges_from iterables of node IDs (never nested lists), adds the requested node set on every path, that skip-sampling loop bounds agree with their decoder's domain, that p in {0,1} branches are present or handled, that sequences consumed pairwise (orders and probabilities) are never reordered one without the other, that candidates enumerated with repetition (Cartesian products of node groups, product index decoders) reach an edge-adding call only under a test on their number of distinct nodes, and that every parameter of every generator is live. Edge counts and distributions are NOT decided. The node collection registered by a generator is not a filtered selection of the requested nodes.",
         ref="3 C16",
     ),
     "C17": dict(
@@ -91,18 +91,18 @@ CLAIMS = {
         ref="3 C17",
     ),
     "C18": dict(
-        technique="static analysis: interprocedural may-write analysis with the receiver marked frozen (freeze-list completeness), dominance of freeze() in subhypergraph; class-level method aliases and factory closures modelled as methods",
+        technique="static analysis: interprocedural may-write analysis with the receiver marked frozen (freeze-list completeness), dominance of freeze() in subhypergraph; class-level method aliases and factory closures modelled as methods; getattr/setattr with names from literal tuples resolved in the effect analysis",
         text="Decides that every public method of the three classes not shadowed by freeze(), and every public library function handed a frozen network, reaches no structural write (calls to shadowed names raise first); exception.frozen always raises XGIError; subhypergraph freezes what it returns; is_frozen/copy have the required shape. New methods are included automatically. Methods created by class-level assignment (aliases, closures returned by a factory) are analysed as methods that bypass instance-level shadows.",
         ref="3 C18",
     ),
     "C19": dict(
-        technique="static analysis: step identification by effect footprint and ordering/guard checks on the CFG of the cleanup methods and convert_labels_to_integers, transfer completeness of << and dual, encoding agreement in complement, None-vs-truthiness lint for selections; definition of both modes of largest_connected_hypergraph by the one selected component",
-        text="Narrow: decides the sequencing of cleanup (relabelling last, singleton removal before isolate removal), one flag per step with documented polarity, copy semantics of in_place, and that relabelling records old labels after re-insertion from zip(view, range) (or puts them into the re-inserted attribute dicts with the label applied last); that << and dual transfer nodes, edges and network attributes of their operands; that the two key encodings compared by complement() have the same canonical form; that optional selections of subhypergraph are defaulted by `is None`, not by truthiness. Set-theoretic results of derived networks are NOT decided. largest_connected_hypergraph: the copy is subhypergraph(nodes=<selected component>) and the in-place mode removes exactly its complement (Q-LCC).",
+        technique="static analysis: step identification by effect footprint and ordering/guard checks on the CFG of the cleanup methods and convert_labels_to_integers, transfer completeness of << and dual, encoding agreement in complement, None-vs-truthiness lint for selections; definition of both modes of largest_connected_hypergraph by the one selected component; maximality decided against a complete face enumeration (Q-MAX)",
+        text="Narrow: decides the sequencing of cleanup (relabelling last, singleton removal before isolate removal), one flag per step with documented polarity, copy semantics of in_place, and that relabelling records old labels after re-insertion from zip(view, range) (or puts them into the re-inserted attribute dicts with the label applied last); that << and dual transfer nodes, edges and network attributes of their operands; that the two key encodings compared by complement() have the same canonical form; that optional selections of subhypergraph are defaulted by `is None`, not by truthiness. Set-theoretic results of derived networks are NOT decided. largest_connected_hypergraph: the copy is subhypergraph(nodes=<selected component>) and the in-place mode removes exactly its complement (Q-LCC). from_max_simplices takes maximal simplices from the edge view or decides against faces of every size (Q-MAX).",
         ref="3 C19",
     ),
     "C20": dict(
-        technique="static analysis: ID/position kind inference over layout and drawing code, key provenance of layout dicts, guarded-range-division lint, step order on the CFG of draw_simplices, canonical-identity lint for faces, hull-mode reaching definitions of polygon vertices, structural-parameter forwarding between draw functions, dead-parameter liveness analysis; order provenance of index maps (L-IDX)",
-        text="Narrow: decides that positions are addressed by label and arrays by position in the layout/drawing functions the property names, that every layout's keys come from the node view (edge positions from the edge view; dicts filled in loops are checked store by store), that a rescaling that divides by a max-min range handles the constant input, that draw_simplices cuts to max_order before taking maximal simplices, that faces are never de-duplicated by raw combination tuples, that outside hull mode a polygon's vertex array is not selected through a convex hull, that draw functions pass pos/ax/max_order/hull/radius on to the sibling draw functions they delegate to, and that every parameter of every layout is live. Rendered geometry is NOT decided. A position map numbering the node view is never applied to an array stacked in another order (L-IDX).",
+        technique="static analysis: ID/position kind inference over layout and drawing code, key provenance of layout dicts, guarded-range-division lint, step order on the CFG of draw_simplices, canonical-identity lint for faces, hull-mode reaching definitions of polygon vertices, structural-parameter forwarding between draw functions, dead-parameter liveness analysis; order provenance of index maps (L-IDX); no unkeyed ordering of labels in the drawing code (L-SORT)",
+        text="Narrow: decides that positions are addressed by label and arrays by position in the layout/drawing functions the property names, that every layout's keys come from the node view (edge positions from the edge view; dicts filled in loops are checked store by store), that a rescaling that divides by a max-min range handles the constant input, that draw_simplices cuts to max_order before taking maximal simplices, that faces are never de-duplicated by raw combination tuples, that outside hull mode a polygon's vertex array is not selected through a convex hull, that draw functions pass pos/ax/max_order/hull/radius on to the sibling draw functions they delegate to, and that every parameter of every layout is live. Rendered geometry is NOT decided. A position map numbering the node view is never applied to an array stacked in another order (L-IDX). The drawing code never orders labels without a key or a type filter (L-SORT).",
         ref="3 C20",
     ),
 }
